@@ -5,6 +5,7 @@ import (
 	"encoding/xml"
 	"errors"
 	"fmt"
+	"math"
 	"strings"
 	"time"
 
@@ -82,11 +83,26 @@ func setDateMax(n int) func() {
 	return func() { date.MaxInputLength = old }
 }
 
-// forEachDate visits the dates of years 0..9999 whose year is in the seed's stripe (all in thorough).
-func forEachDate(c *Ctx, stripe int, f func(y, m, d int)) {
+// alwaysYears are visited by forEachDate whatever the seed's stripe is: the zero Date's year, year 0, the ends
+// of the 0000-9999 range and the hand-picked leap / century / 400-multiple years.
+var alwaysYears = map[int]bool{0: true, 1: true, 2: true, 4: true, 100: true, 400: true, 1582: true, 1600: true, 1900: true, 1970: true, 2000: true,
+	2023: true, 2024: true, 2100: true, 9996: true, 9998: true, 9999: true}
+
+// visitYear: the seed's stripe of years, every century year (so every 400-multiple too), the hand-picked
+// years, and the stripe taken over the ordinary leap years as well (with an odd offset the plain stripe
+// `y%stripe == off` of an even stripe would never contain a leap year).
+func visitYear(c *Ctx, stripe, y int) bool {
+	if c.Thorough {
+		return true
+	}
 	off := int(c.Seed % uint64(stripe))
+	return y%stripe == off || y%100 == 0 || alwaysYears[y] || (y%4 == 0 && (y/4)%stripe == off)
+}
+
+// forEachDate visits the dates of years 0..9999 whose year visitYear selects (all in thorough).
+func forEachDate(c *Ctx, stripe int, f func(y, m, d int)) {
 	for y := 0; y <= 9999; y++ {
-		if !c.Thorough && y%stripe != off && y != 0 && y != 9999 && y%400 != 0 {
+		if !visitYear(c, stripe, y) {
 			continue
 		}
 		for m := 1; m <= 12; m++ {
@@ -106,6 +122,82 @@ func init() {
 }
 
 // ---------------------------------------------------------------------------------------- C01
+
+// c01Special: hand-picked dates whose secondary paths are judged on every run, never behind the n%29 sample:
+// every leap day, and the month ends / month starts of the alwaysYears (zero Date 0001-01-01, year 0, 9999 …).
+func c01Special(y, m, d int) bool {
+	return (m == 2 && d == 29) || (alwaysYears[y] && (d == 1 || d == dim(y, m)))
+}
+
+// c01Secondary judges the secondary output paths (fmt verbs, JSON, XML — String and MarshalText as well) and
+// the secondary input paths (UnmarshalText, JSON, XML; extended and basic text) of one date against the
+// independent texts ext / bas. The caller has set the input limit. full = false (the thorough tier's pass over every
+// date that is neither sampled nor hand-picked) leaves out the nested / pointer / slice renderings and the second XML round.
+func c01Secondary(c *Ctx, y, m, d int, ext, bas string, full bool) {
+	dt := date.New(y, time.Month(m), d)
+	key := fmt.Sprintf("%04d%02d%02d", y, m, d)
+	paths := fmt.Sprintf("date.paths %d %d %d", y, m, d)
+	c.Check("")
+	if dt.String() != ext {
+		c.Fail("C01.String", paths, "%s, want %s", dt.String(), ext)
+	}
+	if mt, err := dt.MarshalText(); err != nil || string(mt) != ext {
+		c.Fail("C01.MarshalText", paths, "%s %v, want %s", mt, err, ext)
+	}
+	if s := fmt.Sprintf("%s|%e|%b|%v", dt, dt, dt, dt); s != ext+"|"+ext+"|"+bas+"|"+ext {
+		c.Fail("C01.verbs", paths, "%s", s)
+	}
+	if s := fmt.Sprint(dt) + "|" + fmt.Sprintf("%v", &dt) + "|" + fmt.Sprintf("%s", []date.Date{dt}); full && s != ext+"|"+ext+"|["+ext+"]" {
+		c.Fail("C01.verbs", paths, "Sprint / pointer / slice: %s", s)
+	}
+	j, err := json.Marshal(dt)
+	if err != nil || string(j) != `"`+ext+`"` {
+		c.Fail("C01.json", key, "%s %v, want %q", j, err, ext)
+	}
+	if !full {
+		var back date.Date
+		if err := json.Unmarshal(j, &back); err != nil || !dateIs(back, y, m, d) {
+			c.Fail("C01.unjson", key, "%v %v", back, err)
+		}
+		if err := json.Unmarshal([]byte(`"`+bas+`"`), &back); err != nil || !dateIs(back, y, m, d) {
+			c.Fail("C01.unjson.basic", key, "%v %v", back, err)
+		}
+		x, err := xml.Marshal(xw{D: dt, A: dt})
+		var xb xw
+		if err != nil || string(x) != `<w a="`+ext+`"><d>`+ext+`</d></w>` || xml.Unmarshal(x, &xb) != nil || !dateIs(xb.D, y, m, d) || !dateIs(xb.A, y, m, d) {
+			c.Fail("C01.xml", key, "%s %v", x, err)
+		}
+		return
+	}
+	if jn, err := json.Marshal(struct {
+		D date.Date  `json:"d"`
+		P *date.Date `json:"p"`
+		L []date.Date
+		M map[string]date.Date
+	}{dt, &dt, []date.Date{dt}, map[string]date.Date{"k": dt}}); err != nil || string(jn) != `{"d":"`+ext+`","p":"`+ext+`","L":["`+ext+`"],"M":{"k":"`+ext+`"}}` {
+		c.Fail("C01.json", key, "nested: %s %v", jn, err)
+	}
+	for _, in := range []string{ext, bas} {
+		var back date.Date
+		if err := json.Unmarshal([]byte(`"`+in+`"`), &back); err != nil || !dateIs(back, y, m, d) {
+			c.Fail("C01.unjson", key, "%q -> %v %v", in, back, err)
+		}
+		var u date.Date
+		if err := u.UnmarshalText([]byte(in)); err != nil || !dateIs(u, y, m, d) {
+			c.Fail("C01.UnmarshalText", "date.parse "+fmt.Sprint(date.MaxInputLength)+" 0 "+hx([]byte(in)), "%s -> %v %v", in, u, err)
+		}
+		var xin xw
+		if err := xml.Unmarshal([]byte(`<w a="`+in+`"><d>`+in+`</d></w>`), &xin); err != nil || !dateIs(xin.D, y, m, d) || !dateIs(xin.A, y, m, d) {
+			c.Fail("C01.unxml", key, "%q -> %v %v %v", in, xin.D, xin.A, err)
+		}
+	}
+	x, err := xml.Marshal(xw{D: dt, A: dt})
+	var xb xw
+	if err != nil || string(x) != `<w a="`+ext+`"><d>`+ext+`</d></w>` || xml.Unmarshal(x, &xb) != nil || !dateIs(xb.D, y, m, d) || !dateIs(xb.A, y, m, d) {
+		c.Fail("C01.xml", key, "%s %v", x, err)
+	}
+}
+
 func propC01(c *Ctx) {
 	defer setDateMax(10)()
 	// correspondence: every day of chosen years through format, paths and parse
@@ -120,9 +212,28 @@ func propC01(c *Ctx) {
 					out := c.Op(fmt.Sprintf("date.format %d %d %d %d -", y, m, d, flag))
 					c.Op(fmt.Sprintf("date.parse 10 0 %s", out))
 				}
-				if d%7 == 1 {
+				if d%7 == 1 || d == dim(y, m) {
 					c.Op(fmt.Sprintf("date.paths %d %d %d", y, m, d))
 				}
+			}
+		}
+	}
+	// format flags are tested bit by bit: unknown extra bits change nothing
+	for _, ymd := range [][3]int{{1, 1, 1}, {0, 1, 1}, {2024, 2, 29}, {9999, 12, 31}, {10000, 1, 1}, {123456789, 12, 31}} {
+		y, m, d := ymd[0], ymd[1], ymd[2]
+		ext := digits(y, 4) + "-" + digits(m, 2) + "-" + digits(d, 2)
+		bas := digits(y, 4) + digits(m, 2) + digits(d, 2)
+		for _, flag := range extValues(2) {
+			line := fmt.Sprintf("date.format %d %d %d %d -", y, m, d, flag)
+			c.Op(line)
+			want := ext
+			if flag&1 != 0 {
+				want = bas
+			}
+			b, err := date.DefaultFormatter(nil, date.New(y, time.Month(m), d), date.Format(flag))
+			c.Check(line)
+			if err != nil || string(b) != want {
+				c.Fail("C01.fmt.flagbits", line, "flag %d: %q %v, want %q", flag, b, err, want)
 			}
 		}
 	}
@@ -132,6 +243,9 @@ func propC01(c *Ctx) {
 			if md[1] > dim(y, md[0]) {
 				continue
 			}
+			if !dateIs(date.New(y, time.Month(md[0]), md[1]), y, md[0], md[1]) {
+				c.Fail("C01.new", fmt.Sprintf("date.new %d %d %d", y, md[0], md[1]), "New -> %v", date.New(y, time.Month(md[0]), md[1]))
+			}
 			for _, flag := range []int{0, 1} {
 				out := c.Op(fmt.Sprintf("date.format %d %d %d %d -", y, md[0], md[1], flag))
 				for _, ml := range []int{0, 11, 12, 13, 14, 15} {
@@ -139,13 +253,20 @@ func propC01(c *Ctx) {
 				}
 				// oracle: parses back whenever the text fits the limit
 				b := mustHex(out)
+				want := digits(y, 4) + "-" + digits(md[0], 2) + "-" + digits(md[1], 2)
+				if flag == 1 {
+					want = digits(y, 4) + digits(md[0], 2) + digits(md[1], 2)
+				}
+				if string(b) != want {
+					c.Fail("C01.long.fmt", fmt.Sprintf("date.format %d %d %d %d -", y, md[0], md[1], flag), "%s, want %s", b, want)
+				}
 				for _, ml := range []int{0, 11, 12, 13, 14, 15} {
 					restore := setDateMax(ml)
 					p, err := date.DefaultParser(b, 0)
 					restore()
 					c.Check(fmt.Sprintf("long %s %d", b, ml))
 					fits := ml == 0 || len(b) <= ml
-					if fits && (err != nil || !p.Equal(date.New(y, time.Month(md[0]), md[1]))) {
+					if fits && (err != nil || !dateIs(p, y, md[0], md[1])) {
 						c.Fail("C01.long", fmt.Sprintf("date.parse %d 0 %s", ml, out), "%s under limit %d -> %v %v", b, ml, p, err)
 					}
 					if !fits && !errors.Is(err, date.ErrInputTooLong) {
@@ -153,19 +274,35 @@ func propC01(c *Ctx) {
 					}
 				}
 			}
+			// every secondary output and input path as well, with the limit disabled and raised
+			c.Op(fmt.Sprintf("date.paths %d %d %d", y, md[0], md[1]))
+			ext := digits(y, 4) + "-" + digits(md[0], 2) + "-" + digits(md[1], 2)
+			bas := digits(y, 4) + digits(md[0], 2) + digits(md[1], 2)
+			for _, ml := range []int{0, 15} {
+				restore := setDateMax(ml)
+				c01Secondary(c, y, md[0], md[1], ext, bas, true)
+				restore()
+			}
+		}
+	}
+	// near misses of valid texts (line terminators, blanks, look-alike digits …) through the model
+	for _, base := range []string{"2024-02-29", "20240229", "0001-01-01", "99991231", "10000-01-01"} {
+		for _, s := range nearMissTexts(base) {
+			c.Op("date.parse 0 0 " + hx([]byte(s)))
+			c.Op("date.parse 20 0 " + hx([]byte(s)))
 		}
 	}
 	// direct oracle over the date space
 	n := 0
+	nSecondary := 0
 	forEachDate(c, 16, func(y, m, d int) {
 		n++
 		dt := date.New(y, time.Month(m), d)
-		key := fmt.Sprintf("%04d%02d%02d", y, m, d)
 		ext := digits(y, 4) + "-" + digits(m, 2) + "-" + digits(d, 2)
 		bas := digits(y, 4) + digits(m, 2) + digits(d, 2)
 		c.Check("")
 		c.NT(1)
-		if yy, mm, dd := dt.Date(); yy != y || int(mm) != m || dd != d {
+		if !dateIs(dt, y, m, d) {
 			c.Fail("C01.new", "date.new "+fmt.Sprint(y, m, d), "New -> %v", dt)
 		}
 		b, _ := date.DefaultFormatter(nil, dt, 0)
@@ -184,41 +321,44 @@ func propC01(c *Ctx) {
 		}
 		for _, in := range []string{ext, bas} {
 			p, err := date.DefaultParser(in, 0)
-			if err != nil || !p.Equal(dt) {
+			if err != nil || !dateIs(p, y, m, d) {
 				c.Fail("C01.parse", "date.parse 10 0 "+hx([]byte(in)), "%s -> %v %v", in, p, err)
 			}
 			p, err = date.DefaultParser([]byte(in), 0)
-			if err != nil || !p.Equal(dt) {
+			if err != nil || !dateIs(p, y, m, d) {
 				c.Fail("C01.parseb", "date.parse 10 0 "+hx([]byte(in)), "%s -> %v %v", in, p, err)
 			}
 			var u date.Date
-			if err := u.UnmarshalText([]byte(in)); err != nil || !u.Equal(dt) {
+			if err := u.UnmarshalText([]byte(in)); err != nil || !dateIs(u, y, m, d) {
 				c.Fail("C01.UnmarshalText", "date.parse 10 0 "+hx([]byte(in)), "%s -> %v %v", in, u, err)
 			}
 		}
-		if n%29 == 0 || c.Thorough {
-			if s := fmt.Sprintf("%s|%e|%b|%v", dt, dt, dt, dt); s != ext+"|"+ext+"|"+bas+"|"+ext {
-				c.Fail("C01.verbs", fmt.Sprintf("date.paths %d %d %d", y, m, d), "%s", s)
-			}
-			j, err := json.Marshal(dt)
-			if err != nil || string(j) != `"`+ext+`"` {
-				c.Fail("C01.json", key, "%s %v", j, err)
-			}
-			var back date.Date
-			if err := json.Unmarshal(j, &back); err != nil || !back.Equal(dt) {
-				c.Fail("C01.unjson", key, "%v %v", back, err)
-			}
-			if err := json.Unmarshal([]byte(`"`+bas+`"`), &back); err != nil || !back.Equal(dt) {
-				c.Fail("C01.unjson.basic", key, "%v %v", back, err)
-			}
-			x, err := xml.Marshal(xw{D: dt, A: dt})
-			var xb xw
-			if err != nil || !strings.Contains(string(x), ">"+ext+"<") || !strings.Contains(string(x), `"`+ext+`"`) || xml.Unmarshal(x, &xb) != nil || !xb.D.Equal(dt) || !xb.A.Equal(dt) {
-				c.Fail("C01.xml", key, "%s %v", x, err)
-			}
+		// the hand-picked dates always, the others on a sample
+		if n%29 == 0 || c.Thorough || c01Special(y, m, d) {
+			nSecondary++
+			c01Secondary(c, y, m, d, ext, bas, n%29 == 0 || c01Special(y, m, d))
 		}
 	})
-	c.Note("direct oracle visited %d dates", n)
+	c.Note("direct oracle visited %d dates, %d of them with every secondary path", n, nSecondary)
+	// the property's first sentence names no setting: the canonical texts parse back under the input limit the
+	// package ships with (captured before anything changed it)
+	func() {
+		defer setDateMax(shipped.dateML)()
+		for _, ymd := range [][3]int{{1, 1, 1}, {0, 1, 1}, {0, 12, 31}, {2024, 2, 29}, {1900, 2, 28}, {9999, 12, 31}, {c.R.Intn(10000), 1 + c.R.Intn(12), 1 + c.R.Intn(28)}} {
+			y, m, d := ymd[0], ymd[1], ymd[2]
+			for _, in := range []string{digits(y, 4) + "-" + digits(m, 2) + "-" + digits(d, 2), digits(y, 4) + digits(m, 2) + digits(d, 2)} {
+				line := fmt.Sprintf("date.parse %d 0 %s", shipped.dateML, hx([]byte(in)))
+				c.Check(line)
+				p, err := date.DefaultParser(in, 0)
+				var u, j date.Date
+				eu := u.UnmarshalText([]byte(in))
+				ej := json.Unmarshal([]byte(`"`+in+`"`), &j)
+				if err != nil || eu != nil || ej != nil || !dateIs(p, y, m, d) || !dateIs(u, y, m, d) || !dateIs(j, y, m, d) {
+					c.Fail("C01.shipped", line, "under the shipped MaxInputLength %d: %q -> %v %v / %v %v / %v %v", shipped.dateML, in, p, err, u, eu, j, ej)
+				}
+			}
+		}
+	}()
 }
 
 // ---------------------------------------------------------------------------------------- C07
@@ -283,6 +423,34 @@ func propC07(c *Ctx) {
 			addOracle(c, a, 0, 0, dd)
 		}
 	}
+	// deltas far beyond a human life: Add is not limited to time.Duration's range (only Sub / DaysBetween are), and the
+	// AddDate-style normalisation holds for any number of days, months and years, alone and combined
+	for _, a := range bs {
+		if a[2] < 28 || !c07FarReceiver[a[0]] {
+			continue
+		}
+		for _, dd := range []int{106751, -106751, 106752, -106752, 1000000, -1000000, 4000000, -4000000} {
+			addOracle(c, a, 0, 0, dd)
+		}
+		for _, dm := range []int{12000, -12000, 119999, -119999, 120000, -120000} {
+			addOracle(c, a, 0, dm, 0)
+		}
+		for _, dy := range []int{10000, -10000, 1000000, -1000000} {
+			addOracle(c, a, dy, 0, 0)
+		}
+		for _, t := range [][3]int{{1000000, 120000, 4000000}, {-1000000, -120000, -4000000}, {1000000, -120000, 4000000}, {-9999, 119999, -106752}, {1, -13, 106752}} {
+			addOracle(c, a, t[0], t[1], t[2])
+		}
+		for _, ns := range []int64{106751 * 86400000000000, -106751 * 86400000000000, 106751*86400000000000 + 80000000000000, -106751*86400000000000 - 80000000000001, math.MaxInt64, math.MinInt64, math.MinInt64 + 1,
+			40000 * 86400000000000, -40000*86400000000000 - 1} {
+			addDurOracle(c, a, ns)
+		}
+	}
+	for i := 0; i < 300; i++ {
+		a := bs[c.R.Intn(len(bs))]
+		addOracle(c, a, c.R.Intn(2000001)-1000000, c.R.Intn(240001)-120000, c.R.Intn(8000001)-4000000)
+		addDurOracle(c, a, int64(c.R.Next()))
+	}
 	for i := 0; i < 4000; i++ {
 		a := bs[c.R.Intn(len(bs))]
 		days := int64(c.R.Intn(2001) - 1000)
@@ -299,6 +467,17 @@ func propC07(c *Ctx) {
 					c.Op(fmt.Sprintf("date.fromtime %d %d %d", base+dl-int64(off), ns, off))
 					c.Op(fmt.Sprintf("date.fromtime %d %d %d", base+dl, ns, off))
 				}
+			}
+		}
+	}
+	// zones are not all multiples of 30 minutes: any number of seconds in (-86400, 86400) is a legal offset (the
+	// local-mean-time zones of the tz database have offsets like +0:57:44); instants within a minute of the local midnight
+	oddOffsets := c07OddOffsets(c)
+	for _, off := range oddOffsets {
+		for _, base := range []int64{0, 1709164800, 1704067199, -62135596799, 951868800} {
+			for _, dl := range []int64{-61, -1, 0, 1, 20, 59, 60, 86399} {
+				c.Op(fmt.Sprintf("date.fromtime %d %d %d", base+dl-int64(off), []int64{0, 999999999}[(dl&1+1)&1], off))
+				c.Op(fmt.Sprintf("date.fromtime %d 0 %d", base+dl, off))
 			}
 		}
 	}
@@ -397,11 +576,18 @@ func propC07(c *Ctx) {
 			c.Fail("C07.add.months", fmt.Sprintf("date.add %d %d %d %d %d 0", a[0], a[1], a[2], ky, km), "-> %v", r2)
 		}
 	}
-	// FromTime in fixed zones against t.Date()
+	// FromTime in fixed zones against an independent expectation — through every entry point the clause covers: the
+	// function FromTime, the pointer method (*Date).FromTime and Scan(time.Time)
+	var offs []int
 	for off := -12 * 3600; off <= 14*3600; off += 1800 {
+		offs = append(offs, off)
+	}
+	offs = append(offs, oddOffsets...)
+	for _, off := range offs {
 		z := time.FixedZone("z", off)
-		for _, base := range []time.Time{time.Date(2024, 2, 29, 0, 0, 0, 0, time.UTC), time.Date(2023, 12, 31, 23, 59, 59, 999, time.UTC), time.Date(1, 1, 1, 0, 0, 1, 0, time.UTC), time.Date(2000, 3, 1, 0, 0, 0, 0, z)} {
-			for _, dl := range []time.Duration{-time.Second, 0, time.Second, 12 * time.Hour} {
+		for _, base := range []time.Time{time.Date(2024, 2, 29, 0, 0, 0, 0, time.UTC), time.Date(2023, 12, 31, 23, 59, 59, 999, time.UTC), time.Date(1, 1, 1, 0, 0, 1, 0, time.UTC), time.Date(2000, 3, 1, 0, 0, 0, 0, z),
+			time.Date(2024, 3, 1, 0, 0, 20, 0, z), time.Date(1900, 2, 28, 23, 59, 40, 0, z)} {
+			for _, dl := range []time.Duration{-time.Second, 0, time.Second, 12 * time.Hour, -61 * time.Second, 59 * time.Second} {
 				t := base.Add(dl).In(z)
 				if t.IsZero() {
 					continue
@@ -409,17 +595,49 @@ func propC07(c *Ctx) {
 				c.Check("")
 				// independent expectation: shift the UTC instant by the offset and split into days
 				sec := t.Unix() + int64(off) + 62135596800
-				dayNo := sec / 86400
-				if sec < 0 && sec%86400 != 0 {
-					dayNo--
-				}
+				dayNo := floorDiv64(sec, 86400)
+				line := fmt.Sprintf("date.fromtime %d %d %d", t.Unix(), t.Nanosecond(), off)
 				d := date.FromTime(t)
-				dy, dm, dd := d.Date()
-				if ordinal(dy, int(dm), dd) != dayNo+1 {
-					c.Fail("C07.fromtime", fmt.Sprintf("date.fromtime %d %d %d", t.Unix(), t.Nanosecond(), off), "%v -> %v", t, d)
+				var dp, ds date.Date
+				dp.FromTime(t)
+				serr := ds.Scan(t)
+				for i, g := range []date.Date{d, dp, ds} {
+					gy, gm, gd := g.Date()
+					if ordinal(gy, int(gm), gd) != dayNo+1 || gd < 1 || gd > dim(gy, int(gm)) {
+						c.Fail([]string{"C07.fromtime", "C07.fromtime.method", "C07.fromtime.scan"}[i], line, "%v (offset %d s) -> %v", t, off, g)
+					}
+				}
+				if serr != nil {
+					c.Fail("C07.fromtime.scan", line, "Scan(%v): %v", t, serr)
 				}
 			}
 		}
+	}
+}
+
+// c07FarReceiver: the receiver years of the far Add / AddDuration deltas.
+var c07FarReceiver = map[int]bool{0: true, 4: true, 1900: true, 2000: true, 2024: true, 9999: true}
+
+// c07OddOffsets are zone offsets that are not multiples of 30 minutes: the hand-picked ones always, a few random ones.
+func c07OddOffsets(c *Ctx) []int {
+	offs := []int{1, -1, 59, -59, 61, -61, 3599, -3599, 3601, -3601, 3464, -17762, 20700, 45900, 86399, -86399, 43200 + 30, -(43200 + 30)}
+	for i := 0; i < 8; i++ {
+		offs = append(offs, c.R.Intn(2*86399+1)-86399)
+	}
+	return offs
+}
+
+// addDurOracle checks one AddDuration call: the date moves by floor(ns / 24h) days when the receiver is midnight.
+func addDurOracle(c *Ctx, a [3]int, ns int64) {
+	line := fmt.Sprintf("date.adddur %d %d %d %d", a[0], a[1], a[2], ns)
+	c.Op(line)
+	r := date.New(a[0], time.Month(a[1]), a[2]).AddDuration(time.Duration(ns))
+	want := ordinal(a[0], a[1], a[2]) + floorDiv64(ns, 86400e9)
+	ry, rm, rd := r.Date()
+	c.Check(line)
+	if int(rm) < 1 || int(rm) > 12 || rd < 1 || rd > dim(ry, int(rm)) || ordinal(ry, int(rm), rd) != want {
+		wy, wm, wd := civilFromOrdinal(want)
+		c.Fail("C07.adddur", line, "-> %v, want %04d-%02d-%02d", r, wy, wm, wd)
 	}
 }
 
@@ -429,15 +647,9 @@ func addOracle(c *Ctx, a [3]int, dy, dm, dd int) {
 	line := fmt.Sprintf("date.add %d %d %d %d %d %d", a[0], a[1], a[2], dy, dm, dd)
 	c.Op(line)
 	r := date.New(a[0], time.Month(a[1]), a[2]).Add(dy, dm, dd)
-	ty, tm := a[0]+dy, a[1]+dm
-	for tm > 12 {
-		tm -= 12
-		ty++
-	}
-	for tm < 1 {
-		tm += 12
-		ty--
-	}
+	months := (a[0]+dy)*12 + (a[1] - 1 + dm) // months since year 0, January
+	ty := floorDiv(months, 12)
+	tm := months - ty*12 + 1
 	want := ordinal(ty, tm, 1) + int64(a[2]-1) + int64(dd)
 	ry, rm, rd := r.Date()
 	c.Check(line)
@@ -446,7 +658,8 @@ func addOracle(c *Ctx, a [3]int, dy, dm, dd int) {
 		return
 	}
 	if ordinal(ry, int(rm), rd) != want {
-		c.Fail("C07.add.normalise", line, "-> %v", r)
+		wy, wm, wd := civilFromOrdinal(want)
+		c.Fail("C07.add.normalise", line, "-> %v, want %04d-%02d-%02d", r, wy, wm, wd)
 	}
 	if !date.FromTime(r.Time()).Equal(r) {
 		c.Fail("C07.add.time", line, "-> %v does not survive Time()", r)
@@ -527,7 +740,7 @@ func checkDateParse(c *Ctx, s string, ml int, rule date.Rule) {
 		if typed, _ := datePE(err); !typed {
 			c.Fail("C09.typed", in, "%T", err)
 		}
-		if !p.IsZero() {
+		if !dateIsZeroValue(p) { // judged on the accessor triple, not with the library's own IsZero
 			c.Fail("C09.zero", in, "%v", p)
 		}
 	}
@@ -635,6 +848,39 @@ func propC09(c *Ctx) {
 				checkDateParse(c, string(x), 15, 0)
 				c.Op("date.parse 15 0 " + hx(x))
 			}
+		}
+		// every byte value before the first and after the last byte of the valid text
+		for b := 0; b < 256; b++ {
+			for _, x := range []string{string([]byte{byte(b)}) + v, v + string([]byte{byte(b)})} {
+				for _, ml := range []int{0, 10, 15} {
+					checkDateParse(c, x, ml, 0)
+				}
+				checkDateParse(c, x, 15, date.RuleDisableBasic)
+				if b < 0x30 || b > 0x7e || b == ':' || b == 'Z' {
+					c.Op(fmt.Sprintf("date.parse 15 %d %s", b&1, hx([]byte(x))))
+				}
+			}
+		}
+		// near misses a lenient parser would forgive: line terminators, blanks, NUL, BOM, a doubled end byte … glued
+		// to the valid text, and one digit / hyphen replaced by a multi-byte look-alike (the grammar is ASCII)
+		for _, x := range nearMissTexts(v) {
+			for _, ml := range []int{0, 10, 15, 20, len(x)} {
+				for _, rule := range []date.Rule{0, date.RuleDisableBasic} {
+					checkDateParse(c, x, ml, rule)
+				}
+			}
+			c.Op("date.parse 0 0 " + hx([]byte(x)))
+			c.Op(fmt.Sprintf("date.parse %d 1 %s", len(x), hx([]byte(x))))
+			c.Op("date.parse 10 0 " + hx([]byte(x)))
+		}
+	}
+	// the rule is a set of flags: "disabled by rule" is a test of the RuleDisableBasic bit, whatever other bits are set
+	for _, v := range append(append([]string{}, valids...), "2023-02-29", "20230229", "2024-0229", "202402-29", "20241301", "123456789-01-01", "1234567890101", "", "2024-02-29\n", "x") {
+		for _, r := range extValues(2) {
+			for _, ml := range []int{10, 0} {
+				checkDateParse(c, v, ml, date.Rule(r))
+			}
+			c.Op(fmt.Sprintf("date.parse 0 %d %s", r, hx([]byte(v))))
 		}
 	}
 	c.Op("date.parse 10 0 -")
@@ -770,6 +1016,55 @@ func propC11(c *Ctx) {
 			c.Op("date.unbin " + hx(in))
 		}
 	}
+	// a valid encoding with something after it, cut short, or under another version number: seven bytes and version 1
+	// are the only thing accepted, whatever the extra bytes are (NUL or 0xff padding, a blank, a repeat of the encoding)
+	for _, ymd := range [][3]int{{2024, 2, 29}, {1, 1, 1}, {0, 12, 31}, {9999, 12, 31}, {-999999999, 1, 1}, {999999999, 12, 31}, {-1, 6, 15}, {c.R.Intn(10000), 1 + c.R.Intn(12), 1 + c.R.Intn(28)}} {
+		y := ymd[0]
+		good7 := []byte{1, byte(uint32(y) >> 24), byte(uint32(y) >> 16), byte(uint32(y) >> 8), byte(uint32(y)), byte(ymd[1]), byte(ymd[2])}
+		probe := func(in []byte, want error, key string) {
+			ub := date.New(1999, 9, 9)
+			err := ub.UnmarshalBinary(in)
+			c.Check("")
+			if !errors.Is(err, want) {
+				c.Fail(key, "date.unbin "+hx(in), "%v -> %v, want %v", err, ub, want)
+			} else if !dateIs(ub, 1999, 9, 9) {
+				c.Fail("C11.bytes.recv", "date.unbin "+hx(in), "receiver changed to %v", ub)
+			}
+			c.Op("date.unbin " + hx(in))
+		}
+		var ub date.Date
+		if err := ub.UnmarshalBinary(good7); err != nil || !dateIs(ub, ymd[0], ymd[1], ymd[2]) {
+			c.Fail("C11.roundtrip", "date.unbin "+hx(good7), "%v %v", ub, err)
+		}
+		for n := 1; n <= 9; n++ {
+			for _, fill := range []int{0x00, 0xff, 0x20, 0x01, -1, -2} {
+				pad := make([]byte, n)
+				for i := range pad {
+					switch fill {
+					case -1:
+						pad[i] = good7[i%7] // the encoding once more
+					case -2:
+						pad[i] = byte(c.R.Next())
+					default:
+						pad[i] = byte(fill)
+					}
+				}
+				probe(append(append([]byte{}, good7...), pad...), date.ErrInvalidLength, "C11.length")
+			}
+		}
+		for _, n := range []int{7 + 256 - 7, 256, 7 + 256, 7 + 65536} { // lengths that are 7 modulo a power of two, or wrap a byte
+			probe(append(append([]byte{}, good7...), make([]byte, n-7)...), date.ErrInvalidLength, "C11.length")
+		}
+		for n := 1; n < 7; n++ {
+			probe(good7[:n], date.ErrInvalidLength, "C11.length")
+		}
+		for _, v := range []byte{0, 2, 3, 0x10, 0x31, 0x81, 0xff} {
+			in := append([]byte{}, good7...)
+			in[0] = v
+			probe(in, date.ErrUnsupportedVersion, "C11.version")
+			probe(append(in, 0), date.ErrUnsupportedVersion, "C11.length.version")
+		}
+	}
 	for i := 0; i < 4000; i++ {
 		in := make([]byte, 7)
 		for j := range in {
@@ -868,6 +1163,67 @@ func propC15(c *Ctx) {
 		}
 	}
 	c.NT(int64(len(idx) * len(idx) * len(win)))
+	// bounds and probes over the whole range a Date can hold: the int32 extremes of the stored year, the documented
+	// +-999,999,999, powers of two and mid-range millions (a packed or scaled comparison key overflows somewhere in between)
+	far := [][3]int{{-2147483647, 1, 1}, {-2147483647, 12, 31}, {-1073741824, 6, 15}, {-999999999, 1, 1}, {-999999999, 12, 31}, {-16777216, 2, 29}, {-6000000, 6, 15}, {-5772805, 1, 1}, {-5000000, 3, 1}, {-4194305, 1, 1},
+		{-70000, 2, 28}, {-1, 12, 31}, {0, 1, 1}, {1, 1, 1}, {2024, 2, 29}, {9999, 12, 31}, {10000, 1, 1}, {65536, 1, 1}, {4194304, 12, 31}, {5000000, 1, 1}, {5772805, 1, 1}, {6000000, 6, 15}, {7000000, 1, 1},
+		{16777216, 3, 3}, {134217728, 1, 31}, {999999999, 12, 31}, {1073741824, 1, 1}, {2147483647, 1, 1}, {2147483647, 12, 31}}
+	for i := 0; i < 10; i++ {
+		y := c.R.Intn(2*999999999+1) - 999999999
+		if i >= 7 {
+			y = int(int32(c.R.Next()))
+			if y == -2147483648 {
+				y++
+			}
+		}
+		m := 1 + c.R.Intn(12)
+		far = append(far, [3]int{y, m, 1 + c.R.Intn(dim(y, m))})
+	}
+	ftok := func(i int) string {
+		if i < 0 {
+			return "- - -"
+		}
+		return fmt.Sprintf("%d %d %d", far[i][0], far[i][1], far[i][2])
+	}
+	for fi := -1; fi < len(far); fi++ {
+		for ti := -1; ti < len(far); ti++ {
+			var fp, tp *date.Date
+			var fo, to int64
+			if fi >= 0 {
+				fp, fo = mk(far[fi]), ordinal(far[fi][0], far[fi][1], far[fi][2])
+			}
+			if ti >= 0 {
+				tp, to = mk(far[ti]), ordinal(far[ti][0], far[ti][1], far[ti][2])
+			}
+			flt, err := date.FilterFromTo(fp, tp)
+			wantErr := fp != nil && tp != nil && fo > to
+			in := "date.filter " + ftok(fi) + " " + ftok(ti) + " " + ftok(0)
+			c.Check("")
+			if (err != nil) != wantErr || (err != nil && !errors.Is(err, date.ErrInvalidFromOrTo)) {
+				c.Fail("C15.err", in, "%v %v %v", fp, tp, err)
+				continue
+			}
+			if err != nil {
+				if (fi+ti)%7 == 0 {
+					c.Op(in)
+				}
+				continue
+			}
+			for pi, p := range far {
+				po := ordinal(p[0], p[1], p[2])
+				want := (fi < 0 || po >= fo) && (ti < 0 || po <= to)
+				c.Check("")
+				line := "date.filter " + ftok(fi) + " " + ftok(ti) + " " + ftok(pi)
+				if flt.Contains(date.New(p[0], time.Month(p[1]), p[2])) != want {
+					c.Fail("C15.contains", line, "want %v", want)
+				}
+				if (pi+fi*3+ti*5)%11 == 0 {
+					c.Op(line)
+				}
+			}
+		}
+	}
+	c.NT(int64((len(far) + 1) * (len(far) + 1) * len(far)))
 	// random triples over years 0000-9999
 	for i := 0; i < 20000; i++ {
 		rd := func() [3]int {
